@@ -285,6 +285,8 @@ def systematic(text, part, sites):
                 "LoopTiling2DTrans", "loop%d" % k, {"tilesize": ts},
                 lambda t, k=k, ts=ts: T.LoopTiling2DTrans().apply(
                     t.walk(Loop)[k], {"tilesize": ts})))
+    # my own two-step composite attempt is not ONE transformation: skip it
+    atts = [a for a in atts if "+" not in a.tname]
     for a in atts:
         tree = psy.read(text)
         again = [b for b in (c05.attempts(tree) + c06.attempts(tree) +
